@@ -220,6 +220,10 @@ def main():
                         break
                 if h.status == 'success' and h.kind == 'complete':
                     stale = True
+            if cex is None and f.get('degraded'):
+                undecided.append(f"PROOF-DEGRADED {obl}: a proof-hint anchor was lost ({(f.get('item') or {}).get('degraded')}) and the function no longer verifies; "
+                                 f"no Kani twin produced a counterexample, so this is not reported as a violation")
+                continue
             if cex is None and stale:
                 undecided.append(f'PROOF-STALE {obl}: the complete Kani twin proves the contract, the Verus proof script needs repair')
                 continue
